@@ -1034,6 +1034,93 @@ pub fn run(ctx: &Ctx) -> CheckResult {
         let outs = par_run(ctx, &ALL_KINDS, |_, k| ambient_stage(ctx, *k));
         res.absorb(merge_jobs(outs));
     }
+    // (E') clone_from at medium periods: targets with a long directional / flat / mixed past are overwritten
+    // with clone_from(source); the copy must continue exactly like source.clone() on falling, rising and
+    // tick-walk continuations (a "hint" field that clone_from forgets to copy)
+    if !res.out.failed() {
+        let mut c4 = vec![];
+        for k in ALL_KINDS {
+            c4.extend(generic_cfgs(k, &[9, 14, 20], &[9, 14]));
+        }
+        let outs = par_run(ctx, &c4, |_, cfg| {
+            let mut out = JobOut::default();
+            let n = cfg.max_period();
+            let bars = !cfg.kind.has_scalar();
+            let mk = |x: f64, i: usize| -> Op {
+                if bars {
+                    Op::B(Bar { o: x, h: x + 0.25 * (i % 3) as f64, l: x - 0.25 * (i % 2) as f64, c: x, v: 1.0 + (i % 3) as f64 })
+                } else {
+                    Op::S(x)
+                }
+            };
+            let walk = super::refcmp::tick_walk(8 * n + 40, ctx.seed ^ 0x99, bars, true, false);
+            let pasts: Vec<(&str, Vec<Op>)> = vec![
+                ("falling", (0..3 * n).map(|i| mk(100.0 - 0.25 * i as f64, i)).collect()),
+                ("rising", (0..3 * n).map(|i| mk(20.0 + 0.25 * i as f64, i)).collect()),
+                ("flat", (0..3 * n).map(|i| mk(33.25, i)).collect()),
+                ("walk", super::refcmp::tick_walk(3 * n, ctx.seed ^ 0x55, bars, true, false).as_ref().clone()),
+            ];
+            for l in [n + 3, 2 * n + 1, 3 * n + 5, 5 * n + 2] {
+                let src_hist = &walk[..l];
+                let level = match &walk[l - 1] {
+                    Op::S(x) => *x,
+                    Op::B(b) => b.c,
+                    Op::Reset => 10.0,
+                };
+                let conts: Vec<(&str, Vec<Op>)> = vec![
+                    ("falling", (0..2 * n + 4).map(|i| mk(level - 0.25 * (1 + i / 2) as f64, i)).collect()),
+                    ("rising", (0..2 * n + 4).map(|i| mk(level + 0.25 * (1 + i / 2) as f64, i)).collect()),
+                    ("walk", walk[l..l + 2 * n + 4].to_vec()),
+                ];
+                for (pname, past) in &pasts {
+                    for (cname, cont) in &conts {
+                        let r = std::panic::catch_unwind(std::panic::AssertUnwindSafe(|| {
+                            let mut src = make(cfg);
+                            for op in src_hist {
+                                src.apply(op);
+                            }
+                            let mut t = make(cfg);
+                            for op in past {
+                                t.apply(op);
+                            }
+                            t.assign_from(src.as_ref());
+                            let mut c = src.dup();
+                            for (i, op) in cont.iter().enumerate() {
+                                let (a, b) = (t.apply(op), c.apply(op));
+                                if !a.bits_eq(&b) {
+                                    return Some((i, a, b));
+                                }
+                            }
+                            None
+                        }));
+                        out.stats.traces += 1;
+                        out.stats.transitions += (src_hist.len() + past.len() + 2 * cont.len()) as u64;
+                        out.stats.evaluations += cont.len() as u64;
+                        match r {
+                            Ok(None) => {}
+                            Ok(Some((i, a, b))) => {
+                                let mut ops = src_hist.to_vec();
+                                ops.extend_from_slice(&cont[..=i]);
+                                out.fail(
+                                    Violation::new(PROP, cfg, &ops, "clone-diverges")
+                                        .obs(out2s(&a))
+                                        .exp(out2s(&b))
+                                        .det(format!("clone_from: an instance of the same parameters with a {} past of {} inputs was overwritten by clone_from(&source) after the first {} operations shown; on the {} continuation its output {} differs from source.clone()", pname, past.len(), src_hist.len(), cname, i + 1)),
+                                );
+                                return out;
+                            }
+                            Err(_) => {
+                                out.fail(Violation::new(PROP, cfg, src_hist, "panic").obs("panic".into()).exp("outputs".into()));
+                                return out;
+                            }
+                        }
+                    }
+                }
+            }
+            out
+        });
+        res.absorb(merge_jobs(outs));
+    }
     // (E) clone_from between different parameters / histories
     if !res.out.failed() {
         let mut c3 = vec![];
@@ -1094,7 +1181,7 @@ pub fn run(ctx: &Ctx) -> CheckResult {
     res.require(res.out.stats.counters.get("schedules_threads").copied().unwrap_or(0) > 1 || res.out.failed(), "no multi-thread schedule was executed");
     res.rule = "case = (configuration, history h at which the clone is taken, schedule): objects {original after h, its clone, unrelated instance with other parameters} each get a continuation; a schedule = interleaving of their operations + assignment of every step to a real OS worker thread; oracle = every output bit-identical to a fresh instance replaying that object's own operations on the main thread; non-trivial = schedule executed on >= 1 worker thread other than main".into();
     res.bounds = format!(
-        "all 22 indicators, periods {{1,3}}, each part on the exact alphabet and on an inexact one (x -> 0.7x+0.013, so that summation order and buffer layout are observable under bit-equality); every history in seq(4 symbols, {hist_depth}) as clone point; (A) all {} merges of 3x{cont_len} ops on one thread; (B) histories up to length {thread_hist_depth}: 3 canonical merges x all worker assignments up to renaming on {k_workers} real threads x clone taken on worker 0/1; (B') for the empty history (thorough: histories up to length 1) the FULL product of all merges x all worker assignments x clone worker; (C) all 16x16 continuation pairs for original/clone under 3 sequential schedules; (G) Default::default() vs new(reported parameters) bit for bit; the merges also on an alphabet containing zeros; (F) ambient state: instances with the same parameters and history (periods 2, 32, 33, 64, 90) built first / after others were used past their wrap-around and dropped / as lock-step siblings / on another thread must agree bit for bit; (E) Clone::clone_from between instances with different parameters and histories (copy must replay like the source, source untouched); (D) periods 1..5(6): clone after every history up to depth 2(3) and after every prefix up to 2n+2 of two default streams, every continuation of n+2 inputs over 3 symbols for the clone while the original is fed different inputs in between; (I) for every period q in 1..=600 the outputs of a fresh instance that follows an instance of period 3 / 9 / 14 / 20 in this process have the digest computed in two fresh processes (periods ascending / descending); (H) period 8192: twin instances and a clone taken at the full window agree bit for bit on a quiet thread, and (SAMPLING) an instance fed while twelve other threads keep large-window instances busy (eight of the same kind); plus {rounds} free-running 16-thread rounds (SAMPLING, not part of the exhaustive claim)",
+        "all 22 indicators, periods {{1,3}}, each part on the exact alphabet and on an inexact one (x -> 0.7x+0.013, so that summation order and buffer layout are observable under bit-equality); every history in seq(4 symbols, {hist_depth}) as clone point; (A) all {} merges of 3x{cont_len} ops on one thread; (B) histories up to length {thread_hist_depth}: 3 canonical merges x all worker assignments up to renaming on {k_workers} real threads x clone taken on worker 0/1; (B') for the empty history (thorough: histories up to length 1) the FULL product of all merges x all worker assignments x clone worker; (C) all 16x16 continuation pairs for original/clone under 3 sequential schedules; (G) Default::default() vs new(reported parameters) bit for bit; the merges also on an alphabet containing zeros; (F) ambient state: instances with the same parameters and history (periods 2, 32, 33, 64, 90) built first / after others were used past their wrap-around and dropped / as lock-step siblings / on another thread must agree bit for bit; (E') periods 9/14/20: clone_from into targets with a falling / rising / flat / tick-walk past vs source.clone() on falling / rising / tick-walk continuations; (E) Clone::clone_from between instances with different parameters and histories (copy must replay like the source, source untouched); (D) periods 1..5(6): clone after every history up to depth 2(3) and after every prefix up to 2n+2 of two default streams, every continuation of n+2 inputs over 3 symbols for the clone while the original is fed different inputs in between; (I) for every period q in 1..=600 the outputs of a fresh instance that follows an instance of period 3 / 9 / 14 / 20 in this process have the digest computed in two fresh processes (periods ascending / descending); (H) period 8192: twin instances and a clone taken at the full window agree bit for bit on a quiet thread, and (SAMPLING) an instance fed while twelve other threads keep large-window instances busy (eight of the same kind); plus {rounds} free-running 16-thread rounds (SAMPLING, not part of the exhaustive claim)",
         merges(&vec![cont_len; 3]).len()
     );
     let mut assumptions = vec![
